@@ -206,6 +206,14 @@ Theorem C17_watch_var_example :
 Proof. exact var_watch_example. Qed.
 Print Assumptions C17_watch_var_example.
 
+(* the first change may be TO zero: the zero-filled global item is "nothing reported yet" (inited = false), not
+   "0 was reported" - with that confusion the change 3 -> 0 would be swallowed (second line; seeded change C17-7) *)
+Theorem C17_watch_var_first_change_to_zero :
+  var_values (wrun var_cfg [(100, ov 3); (110, ov 0)] var_x0) = [0] /\
+  var_values (wrun var_cfg [(100, ov 3); (110, ov 0)] var_x0_zero_reported) = [].
+Proof. exact var_first_change_to_zero. Qed.
+Print Assumptions C17_watch_var_first_change_to_zero.
+
 (* FALSE across threads (known finding watch-var-once-per-process): the global watch item makes a value reported
    once per process - threads 0 and 1 both observe 3 at entry and 4 at exit (multi-thread machine xexec_mt:
    per-thread machines, shared item): thread 0 reports the change, thread 1, whose own previous observation
